@@ -348,6 +348,65 @@ def _library(tk: str) -> Iterable[dict]:
     b1.out("out", o)
     yield _prog(f"lib/pingpong2{sfx}", [b0, b1], tk)
 
+    # three rounds: a rank with THREE receiving parts, each round's send computed from the
+    # previous round's receive (all schedules of it are executed: a part whose receives
+    # have completed must run although a later part's receives are complete, too)
+    b0, b1 = _B(), _B()
+    x = b0.inp()
+    r2, r4, r6 = b0.recv(1, 2), b0.recv(1, 4), b0.recv(1, 6)
+    o = b0.op(x, r6)
+    o = b0.hold(b0.op(x), 1, 1, o)
+    o = b0.hold(b0.op(r2), 1, 3, o)
+    o = b0.hold(b0.op(r4), 1, 5, o)
+    b0.out("out", o)
+    y = b1.inp()
+    r1, r3, r5 = b1.recv(0, 1), b1.recv(0, 3), b1.recv(0, 5)
+    o = b1.op(y, r5)
+    o = b1.hold(b1.op(r1), 0, 2, o)
+    o = b1.hold(b1.op(r3), 0, 4, o)
+    o = b1.hold(b1.op(r5), 0, 6, o)
+    b1.out("out", o)
+    yield _prog(f"lib/pingpong3{sfx}", [b0, b1], tk)
+    # ... and a rank that only collects: three receives that arrive in any order, each
+    # feeding a part of its own through a chain of dependent stored arrays
+    b0, b1 = _B(), _B()
+    x = b0.inp()
+    o = b0.op(x)
+    for t in (1, 2, 3):
+        o = b0.hold(b0.op(x), 1, t, o)
+    b0.out("out", o)
+    y = b1.inp()
+    ra, rb, rc = b1.recv(0, 1), b1.recv(0, 2), b1.recv(0, 3)
+    s1 = b1.hold(b1.op(ra), 0, 11, b1.op(y))
+    s2 = b1.hold(b1.op(rb, s1), 0, 12, b1.op(y, rb))
+    b1.out("out", b1.op(rc, s2))
+    b0.out("back", b0.op(b0.recv(1, 11), b0.recv(1, 12)))
+    yield _prog(f"lib/collect3{sfx}", [b0, b1], tk)
+
+    # rank 1 has three receiving parts A (t1), B (t2, reads A's stored result), C (t3); t1
+    # and t2 reach it WITHOUT waiting for anything it sends (t2 goes the long way through
+    # rank 2), t3 is only sent once rank 0 has B's reply: when t1 and t2 complete in ONE
+    # Waitsome, B must run right after A although a receive is still outstanding
+    b0, b1, b2 = _B(), _B(), _B()
+    x = b0.inp()
+    v = b0.recv(2, 21)
+    back = b0.recv(1, 12)
+    o = b0.op(x, back)
+    o = b0.hold(b0.op(x), 1, 1, o)
+    o = b0.hold(b0.op(x), 2, 20, o)
+    o = b0.hold(b0.op(v), 1, 2, o)
+    o = b0.hold(b0.op(back), 1, 3, o)
+    b0.out("out", o)
+    y = b1.inp()
+    ra, rb, rc = b1.recv(0, 1), b1.recv(0, 2), b1.recv(0, 3)
+    sa = b1.op(ra, y, st=1)
+    ob = b1.hold(b1.op(rb, sa), 0, 12, b1.op(sa))
+    b1.out("out", b1.op(rc, ob))
+    z = b2.inp()
+    u = b2.recv(0, 20)
+    b2.out("out", b2.hold(b2.op(u), 0, 21, b2.op(z, u)))
+    yield _prog(f"lib/stream_then_reply{sfx}", [b0, b1, b2], tk)
+
     # a receive used only through a send holder: computed from, then forwarded
     b0, b1, b2 = _B(), _B(), _B()
     x = b0.inp()
